@@ -37,9 +37,14 @@ def generate(seed, tier):
     rng = st.prog
     wa = rng.choice([1, 2, 2, 3])
     wb = rng.choice([3, 4, 5])
-    kind = rng.choice(["pair", "pair", "chain", "list", "chain_bc", "chain_bc", "listop"])
+    kind = rng.choice(["pair", "pair", "chain", "list", "chain_bc", "chain_bc", "listop",
+                       "shared_after", "shared_after", "after_list"])
     if kind == "chain_bc":
         return gen_chain_bc(st, seed, tier)
+    if kind == "shared_after":
+        return gen_shared_after(st, seed, tier)
+    if kind == "after_list":
+        return gen_after_list(st, seed, tier)
     if kind == "listop":
         return gen_listop(st, seed, tier)
     fields = [{"n": "a", "k": "s", "w": wa, "s": False, "r": True, "i": 0},
@@ -116,6 +121,61 @@ def gen_chain_bc(st, seed, tier):
     ops = [{"op": "new", "cls": "K0"}, {"op": "seed", "p": 0, "k": st.lib.randint(0, 1 << 30)},
            {"op": "randomize", "p": 0}, {"op": "randomize", "p": 0}]
     return {"prop": ID, "seed": seed, "prog": prog, "ops": ops, "kind": "chain_bc", "judge": ["a", "b"],
+            "n": 1500 if tier == "quick" else 6000, "k": st.lib.randint(0, 1 << 30)}
+
+
+def gen_shared_after(st, seed, tier):
+    """two (or three) directives name the same 'after' field: solve_order(a, c); solve_order(b, c).
+    a and b are each related to c only (upper bounds for a's values, lower bounds for b's, chosen so
+    that every (a, b) combination stays feasible); both must come out uniform"""
+    rng = st.prog
+    wa, wb, wc = rng.choice([1, 2]), rng.choice([1, 2]), rng.choice([3, 4])
+    fields = [{"n": n, "k": "s", "w": w_, "s": False, "r": True, "i": 0}
+              for n, w_ in (("a", wa), ("b", wb), ("c", wc))]
+    so = [{"t": "solve_order", "before": [["a"]], "after": [["c"]]},
+          {"t": "solve_order", "before": [["b"]], "after": [["c"]]}]
+    if rng.random() < 0.3:
+        so.append({"t": "solve_order", "before": [["a"]], "after": [["b"]]})
+    rng.shuffle(so)
+    cmax = (1 << wc) - 1
+    mid = cmax // 2
+    cons = []
+    for k in rng.sample(range(1 << wa), rng.randint(1, max(1, (1 << wa) // 2))):
+        cons.append({"t": "implies", "c": progs.BIN("==", progs.F("a"), progs.LIT(k)),
+                     "body": [progs.EXPR(progs.BIN("<=", progs.F("c"), progs.LIT(rng.randint(mid, mid + 1))))]})
+    for k in rng.sample(range(1 << wb), rng.randint(1, max(1, (1 << wb) // 2))):
+        cons.append({"t": "implies", "c": progs.BIN("==", progs.F("b"), progs.LIT(k)),
+                     "body": [progs.EXPR(progs.BIN(">=", progs.F("c"), progs.LIT(rng.randint(mid - 1, mid))))]})
+    stmts = (cons + so) if rng.random() < 0.5 else (so + cons)
+    prog = {"enums": [], "top": "K0",
+            "classes": [{"name": "K0", "fields": fields, "blocks": [{"n": "c0", "stmts": stmts}]}]}
+    ops = [{"op": "new", "cls": "K0"}, {"op": "seed", "p": 0, "k": st.lib.randint(0, 1 << 30)},
+           {"op": "randomize", "p": 0}, {"op": "randomize", "p": 0}]
+    return {"prop": ID, "seed": seed, "prog": prog, "ops": ops, "kind": "shared_after", "judge": ["a", "b"],
+            "joint": ["a", "b"], "n": 1500 if tier == "quick" else 6000, "k": st.lib.randint(0, 1 << 30)}
+
+
+def gen_after_list(st, seed, tier):
+    """the 'after' operand is a list: solve_order(a, lst); a's values differ in how many list
+    contents accompany them"""
+    rng = st.prog
+    wa, wl = rng.choice([1, 2]), rng.choice([2, 3])
+    fields = [{"n": "a", "k": "s", "w": wa, "s": False, "r": True, "i": 0},
+              {"n": "lst", "k": "l", "w": wl, "s": False, "r": True, "rsz": False, "sz": rng.choice([2, 3])}]
+    lmax = (1 << wl) - 1
+    stmts = [{"t": "solve_order", "before": [["a"]], "after": [["lst"]]}]
+    for k in rng.sample(range(1 << wa), rng.randint(1, max(1, (1 << wa) // 2))):
+        lo = rng.randint(0, lmax - 1)
+        stmts.append({"t": "implies", "c": progs.BIN("==", progs.F("a"), progs.LIT(k)),
+                      "body": [progs.EXPR({"t": "in", "e": progs.F("lst", rng.randrange(2)),
+                                           "rl": [[lo, lo + rng.choice([0, 1])]]})]})
+    if rng.random() < 0.5:
+        stmts = stmts[1:] + stmts[:1]
+    prog = {"enums": [], "top": "K0",
+            "classes": [{"name": "K0", "fields": fields, "blocks": [{"n": "c0", "stmts": stmts}]}]}
+    ops = [{"op": "new", "cls": "K0"}, {"op": "seed", "p": 0, "k": st.lib.randint(0, 1 << 30)},
+           {"op": "randomize", "p": 0}, {"op": "randomize", "p": 0}]
+    return {"prop": ID, "seed": seed, "prog": prog, "ops": ops, "kind": "after_list", "judge": ["a"],
             "n": 1500 if tier == "quick" else 6000, "k": st.lib.randint(0, 1 << 30)}
 
 
@@ -230,6 +290,17 @@ def execute(rec):
         ci = names.index("c")
         pairs = set((s[ai], s[ci]) for s in sols)
         joint_ok = len(pairs) == len(doms[ai]) * len(doms[ci])
+    if rec.get("joint"):
+        # every combination of the ordered variables must be feasible, else 'uniform' is not implied
+        cols = [names.index(x) for x in rec["joint"]]
+        combos = set(tuple(s_[c_] for c_ in cols) for s_ in sols)
+        n_all = 1
+        for c_ in cols:
+            n_all *= len(doms[c_])
+        joint_ok = len(combos) == n_all
+        stats["chain_systems"] += 1
+    if rec["kind"] == "after_list":
+        stats["list_systems"] += 1
     if rec["kind"] in ("chain_bc", "listop"):
         stats["chain_systems"] += 1 if rec["kind"] == "chain_bc" else 0
         stats["list_systems"] += 1 if rec["kind"] == "listop" else 0
